@@ -8,27 +8,24 @@ META = {
                  "fec.go (invariant by induction over arbitrary packet sequences; combinatorics of block patterns); "
                  "models tied to the real autoTune / fecDecoder by differential replay of pulse trains and decoder "
                  "histories (extracted OCaml) plus property monitors on the real code incl. the 258+2(d+p) bound",
-    "level_text": "proof (partial)",
-    "level_note": "stability, FindPeriod soundness and mismatch detection are full; FindPeriod completeness and "
-                  "the composed convergence bound are proved for the listed alignments / premises (see theorem "
-                  "comments) and measured on the real code for all pairs d+p <= 6 and sampled to 255; 'stream intact' "
-                  "with different data counts rests on the ARQ core's conv/cmd/len filter (probabilistic in the code itself)",
+    "level_text": "proof (one half partial)",
+    "level_note": "stability, FindPeriod soundness/completeness, mismatch detection and the composed bound "
+                  "258+2(d+p) (c16_converges) are fully proved, the latter for rings holding only samples of the "
+                  "sender (any loss/dup/reorder of its earlier packets) and runs without u32 wrap; rings pre-filled "
+                  "with junk of another pattern are covered by the monitors on the real code only; 'stream intact' "
+                  "with different data counts rests on the ARQ core's conv/cmd/len filter (probabilistic in the code "
+                  "itself) and is stated as c16_stream_intact_partial",
 }
 
 FILES = ["fec_test.go"]
-OBLIGATIONS = ["c16_stable", "c16_genuine_is_matching", "c16_findperiod_sound", "c16_mismatch_detected"]
-PARTIAL = []
+OBLIGATIONS = ["c16_stable", "c16_genuine_is_matching", "c16_findperiod_sound", "c16_mismatch_detected",
+               "c16_ring_holds_last_samples", "c16_findperiod_complete", "c16_converges", "c16_tuning_steps",
+               "c16_stream_intact_partial", "c16_parity_rows_indep"]
+PARTIAL = ["c16_stream_intact_partial"]
 
 
 def run(ctx):
-    import re, os
-    src = open(os.path.join(V.VERIF, "coq", "fec", "C16.v")).read()
-    obligations = list(OBLIGATIONS)
-    for extra in ("c16_findperiod_complete", "c16_ring_holds_last_samples", "c16_converges_partial", "c16_stream_intact_partial"):
-        if re.search(r"Theorem\s+%s\b" % extra, src):
-            obligations.append(extra)
-    partial = [t for t in obligations if t.endswith("_partial")]
-    ctx.prove("fec", "C16.v", obligations, partial=partial)
+    ctx.prove("fec", "C16.v", OBLIGATIONS, partial=PARTIAL)
     rep, _ = V.harness_report(ctx, "^TestVerifC16$", "C16.report.json", files=FILES)
     summ = V.driver_compare(ctx, "fec", ["fec_model"], "fec_driver", "C16.log",
                             "autotune.go Sample/FindPeriod and fec.go decode (tuning branch, re-configuration, group table) vs "
